@@ -405,8 +405,53 @@ func runSweep(t *testing.T, res *vh.Result, tr *vh.Trace, r *rand.Rand) {
 	res.Traces++
 }
 
+// runCrowd: proposals of very different transaction counts from one node, one after another, with the size limit set
+// so that the block of the crowded round fits (or misses) by a byte: the count prefix of the block grows from one to
+// three bytes at 253 transactions, and whatever the node remembers from an earlier proposal must not leak into this one.
+func runCrowd(t *testing.T, res *vh.Result, tr *vh.Trace, r *rand.Rand) {
+	const S = 260 // bytes per transaction
+	for wi, off := range []int{-1, 0, 1, 2} {
+		K := 253 + r.Intn(20)
+		p := defaultParams(fmt.Sprintf("CROWD%d", wi))
+		p.Rich = true
+		p.SRIH = wi%2 == 1
+		empty := emptyLen(t, p.SRIH)
+		p.MaxTx = 600
+		p.MaxBlkSize = uint32(empty + 2 + K*S + off) // K transactions fit exactly when off = 0
+		p.MaxSysFee = 5000 * gas
+		w := NewWorld(t, p)
+		tr.Emit(map[string]any{"event": "world", "params": p, "height": w.bc.BlockHeight(), "empty_block": empty})
+		senders := []string{"A0", "A1", "A2", "A3", "A4", "A5"}
+		idx := 0
+		fill := func(n int) []*Built {
+			var cands []*Built
+			for i := 0; i < n; i++ {
+				idx++
+				b, err := w.Build(validCell, 500000+idx, w.bc.BlockHeight(), BuildOpts{Sender: w.acc[senders[idx%len(senders)]],
+					SysFee: 100_0000, SysFeeSet: true, TargetSize: S, ExtraFeePerByte: int64(n-i) * 10})
+				if err != nil {
+					t.Fatalf("crowd: %v", err)
+				}
+				if !w.offerMain(b) {
+					t.Fatalf("crowd: transaction %d not pooled", idx)
+				}
+				cands = append(cands, b)
+			}
+			return cands
+		}
+		for round, n := range []int{3, K + 12, 2, K + 5} {
+			cands := fill(n)
+			w.proposeRound(res, tr, fmt.Sprintf("crowd-%d-%d", wi, round), cands, -1, true)
+		}
+		res.Inc("crowd_worlds", 1)
+		res.Traces++
+		w.Close()
+	}
+}
+
 func runProposals(t *testing.T, res *vh.Result, tr *vh.Trace) {
 	runSweep(t, res, tr, vh.Rand(19))
+	runCrowd(t, res, tr, vh.Rand(23))
 	var cases []packCase
 	if err := vh.ReadJSON("packs.json", &cases); err != nil {
 		t.Logf("no pack cases: %v", err)
